@@ -47,7 +47,7 @@ func TestC11(t *testing.T) {
 				return true
 			})
 		}
-		e.feed(feedOpts{counts: 2, shortlexQ: 4, shortlexT: 6, sweepQ: 2500, sweepT: 60000, nestQ: 150, nestT: 4000, indentQ: 40, indentT: 1500, numShapes: 4, strRuns: true, tokenSweepQ: 60, templateSweep: true, amplify: true,
+		e.feed(feedOpts{counts: 2, streams: true, shortlexQ: 4, shortlexT: 6, sweepQ: 2500, sweepT: 60000, nestQ: 150, nestT: 4000, indentQ: 40, indentT: 1500, numShapes: 4, strRuns: true, tokenSweepQ: 60, templateSweep: true, amplify: true,
 			mutQ: 200000, mutT: 4000000, nextByte: true, alignment: true, boundaries: true}, s.input)
 	})
 }
